@@ -13,7 +13,7 @@ import traceback
 from collections import namedtuple, OrderedDict
 from enum import IntEnum
 from hmac import HMAC
-from struct import unpack
+from struct import pack, unpack
 
 import xfrm
 from crypto import Cipher, Crypto, DiffieHellman, Integrity, Prf
@@ -702,6 +702,11 @@ class IkeSa(object):
         invalid_ke = response.get_notifies(PayloadNOTIFY.Type.INVALID_KE_PAYLOAD)
         if invalid_ke:
             self.my_msg_id = 0
+            # a copy of the INVALID_KE_PAYLOAD we already acted upon (the retry in that group is on its way): generating
+            # yet another key pair now would make the response to that retry useless
+            if invalid_ke[0].notification_data == pack('>H', self.request.get_payload(Payload.Type.KE).dh_group):
+                self.log_warning('Duplicated INVALID_KE_PAYLOAD notification received. Ignoring')
+                return None
             self.dh, self.request = self.handle_invalid_ke(invalid_ke)
             self.ike_sa_init_req_data = self.request.to_bytes()
             return self.request
